@@ -115,11 +115,24 @@ func (d *Duration) UnmarshalText(text []byte) error {
 			out += time.Duration(m) * time.Minute
 		}
 		if match[3] != "" {
-			s, err := strconv.ParseFloat(match[3], 64)
+			// Parse whole seconds and the fraction as integers: going through
+			// float64 loses a nanosecond for fractions that are inexact in binary.
+			whole, frac, _ := strings.Cut(match[3], ".")
+			s, err := strconv.Atoi(whole)
 			if err != nil {
 				return fmt.Errorf("invalid duration seconds (%s): %s", text, err)
 			}
-			out += time.Duration(s * float64(time.Second))
+			out += time.Duration(s) * time.Second
+			if frac != "" {
+				if len(frac) > 9 {
+					frac = frac[:9] // finer than a nanosecond
+				}
+				ns, err := strconv.Atoi(frac + strings.Repeat("0", 9-len(frac)))
+				if err != nil {
+					return fmt.Errorf("invalid duration seconds (%s): %s", text, err)
+				}
+				out += time.Duration(ns)
+			}
 		}
 	}
 
